@@ -25,7 +25,7 @@ def common_stage(rep, need_theorems=True):
                     ("is_hex_digit", "C03 C17"), ("specials", "C03 C17 C18"), ("uninitialized16", "C04 C06 C18"), ("recognized_term", "C04 C06 C18"), ("conflicted_recognition", "C04"),
                     ("parse_table_entry_kind", "C01 C05 C11"), ("dfa_size", "C12"), ("situation", "C12 C01"), ("stack capacity", "C12 C06 C07"), ("default limits", "C12"), ("make_situation_idx", "C01 C11"),
                     ("get_parse_table_idx", "C01"), ("dfa_size_analyzer", "C12"), ("name", "C16 C09 C11"), ("regex", "C03 C17"), ("functor", "C03 C17"), ("pattern parse options", "C03 C17"),
-                    ("cbitset", "C01 C03 C04 C06"), ("cvector", "C06 C12"), ("cqueue", "C06 C12"), ("stdex sort", "C01"), ("skip list", "C19"), ("element", "C19"), ("construct", "C19"), ("emplace_back", "C19")]
+                    ("cbitset", "C01 C03 C04 C06"), ("utils str_equal", "C01 C17 C18"), ("utils find_str", "C01 C17 C18"), ("utils find_char", "C04 C10 C09"), ("utils char_names", "C09 C16"), ("utils char_to_idx", "C03 C04"), ("hex_digits_to_char", "C03"), ("cvector", "C06 C12"), ("cqueue", "C06 C12"), ("stdex sort", "C01"), ("skip list", "C19"), ("element", "C19"), ("construct", "C19"), ("emplace_back", "C19")]
     relevant = True
     if not ok:
         hit = [pr for key, pr in ANCHOR_PROPS if key in msg]
@@ -224,6 +224,7 @@ def check_C01(rep):
     FX.run_fixed(rep, "big_grammar.cpp", "g++", "-pthread", "verdict-of-a-large-conflict-free-grammar-differs-from-its-language")
     # the representation below the generator mirror: item sets / FIRST sets are stdex::cbitset words, rule_infos are sorted by stdex::sort
     rep.notes["container_sequences"] = contfam.run_containers(rep, what=("B", "S"))
+    rep.notes["utils_cases"] = contfam.run_utils(rep)       # symbol lookup by name: utils::str_equal / find_str at the byte level
     # the DSL glue: symbol lookup by name/id, stable sort by left side, slices - through generated programs
     run3 = h3_stage(rep)
     if run3 is not None:
@@ -525,6 +526,7 @@ def clean_grammar(run, cid):
 def check_C09(rep):
     common_stage(rep)
     FX.run_fixed(rep, "messages.cpp", "g++", "", "failure-message-names-the-wrong-term-or-position-or-a-byte-is-skipped-silently")
+    rep.notes["utils_cases"] = contfam.run_utils(rep)       # the byte names of 'Unexpected character' (utils::char_names), NUL never whitespace
     run = h1_stage(rep)
     if run is None: return rep
     nontriv = set(); samples = []; np_cases = set()
@@ -881,8 +883,10 @@ def check_C03(rep):
     run = h2_stage(rep)
     if run is None: return rep
     dfa_property(rep, run, "pattern")
+    FX.run_fixed(rep, "long_match.cpp", "g++", "-O1", "matcher-verdict-wrong-on-a-long-string-or-a-high-byte")
     # character sets ('.', sets, inverted sets) are stdex::cbitset<256> words: whole-set flip()/set() at the word level
     rep.notes["container_sequences"] = contfam.run_containers(rep, what=("B",))
+    rep.notes["utils_cases"] = contfam.run_utils(rep)       # hex escapes, digit classes, char <-> index at the byte level
     rep.cov["rule"] = "patterns: forced shapes (loop followed by the same char, shared prefixes, repetition of groups containing loops, nested {n}, optional before same char), a deterministic-only stream, grammar-directed random patterns (depth <= 5, all operators, sets, ranges, hex escapes, bytes >= 0x80); strings: all strings up to a bound over the pattern's alphabet plus a foreign byte, and random longer ones. Non-trivial = distinct pattern with >= 2 operators on which both verdicts occur."
     return rep
 
@@ -892,6 +896,9 @@ def check_C04(rep):
     run = h2_stage(rep)
     if run is None: return rep
     dfa_property(rep, run, "termset")
+    # below the lexer: character sets as cbitset<256> words; the whitespace test utils::find_char (NUL is never whitespace)
+    rep.notes["container_sequences"] = contfam.run_containers(rep, what=("B",))
+    rep.notes["utils_cases"] = contfam.run_utils(rep)
     run3 = h3_stage(rep)
     if run3 is not None:
         for gid in sorted(run3.real):
@@ -907,6 +914,7 @@ import patsyntax
 def check_C17(rep):
     common_stage(rep)
     FX.run_fixed(rep, "undeclared.cpp", "g++", "", "undeclared-symbol-or-empty-name-accepted")
+    rep.notes["utils_cases"] = contfam.run_utils(rep)       # printable / digit classes on signed chars, exact name comparison (utils::str_equal / find_str)
     for f in ("bad_pattern.cpp", "bad_pattern2.cpp", "empty_alternative.cpp", "undeclared_nterm.cpp"):
         FX.must_not_compile(rep, f, "g++"); FX.must_not_compile(rep, f, "clang++")
     run = h2_stage(rep)
